@@ -28,7 +28,10 @@ Phrases == { [toks |-> <<"foo">>, at |-> 1, cls |-> "Unknown", time |-> "build",
              [toks |-> <<"nil", "1", "+">>, at |-> 3, cls |-> "Type", time |-> "run", pre |-> <<"nil", "1">>, last |-> <<"+">>] }
 Prefixes == { <<>>, <<"7">>, <<"7", "dup">> }
 Suffixes == { <<>>, <<"5">>, <<"5", "drop">> }
-Kinds == {"plain", "meta", "metacall", "metaloop", "imm", "injin", "injafter", "incin", "incafter"}
+Kinds == {"plain", "meta", "metacall", "metaloop", "imm", "injin", "injafter", "incin", "incafter", "badname"}
+\* a malformed token where a name is expected: the lexer rejects THAT token (the error is not moved to the word before it)
+BadNames == << <<"7", "var", "12ab">>, <<":", "3z", "1", ";">>, <<"1", "!", "0x1.5">>, <<":", "f", "1", "local", "2d", ";">>, <<"late", "0b2">> >>
+BadAt == <<3, 2, 3, 5, 2>>
 
 Case(kind, F, P, S) ==
   CASE kind = "plain"    -> [srcs |-> << P \o F.toks \o S >>, src |-> 1, tok |-> Len(P) + F.at]
@@ -39,6 +42,8 @@ Case(kind, F, P, S) ==
     [] kind = "injin"    -> [srcs |-> << <<"@inj:2", "9">>, P \o F.toks \o S >>, src |-> 2, tok |-> Len(P) + F.at]
     [] kind = "incin"    -> [srcs |-> << <<"@inc:2", "9">>, P \o F.toks \o S >>, src |-> 2, tok |-> Len(P) + F.at]
     [] kind = "injafter" -> [srcs |-> << P \o F.pre \o <<"6", "@inj:2">> \o F.last \o S, <<"drop">> >>, src |-> 1, tok |-> Len(P) + Len(F.pre) + 3]
+    [] kind = "badname"  -> LET n == 1 + ((Len(P) + Len(S) + F.at) % Len(BadNames)) IN
+                            [srcs |-> << P \o BadNames[n] \o S >>, src |-> 1, tok |-> Len(P) + BadAt[n]]
     [] kind = "incafter" -> [srcs |-> << P \o F.pre \o <<"6", "@inc:2">> \o F.last \o S, <<"drop">> >>, src |-> 1, tok |-> Len(P) + Len(F.pre) + 3]
 
 \* an unknown word inside a definition or a meta block is rejected when it is read: those constructions add nothing
@@ -49,5 +54,5 @@ VARIABLE c
 Init == c = <<>>
 Next == c = <<>> /\ \E k \in Kinds, F \in Phrases, P \in Prefixes, S \in Suffixes : Applicable(k, F) /\ c' = <<k, F, P, S>>
 Spec == Init /\ [][Next]_c
-Export == c # <<>> => PrintT(<<"REPLAY", ToJson(Case(c[1], c[2], c[3], c[4]) @@ [kind |-> c[1], cls |-> c[2].cls, time |-> c[2].time])>>)
+Export == c # <<>> => PrintT(<<"REPLAY", ToJson(Case(c[1], c[2], c[3], c[4]) @@ [kind |-> c[1], cls |-> IF c[1] = "badname" THEN "Parse" ELSE c[2].cls, time |-> c[2].time])>>)
 =============================================================================
